@@ -28,21 +28,47 @@ type result struct {
 	Panic string  `json:"panic,omitempty"`
 }
 
+type foreignPanic struct{ n int64 }
+
+// fatal classifies an uncatchable condition raised by __fatal(n): the completion type is "fatal", the value is n
+func fatal(vm *goja.Runtime, res *result, err error) bool {
+	switch e := err.(type) {
+	case *goja.InterruptedError:
+		if n, ok := e.Value().(int64); ok {
+			res.Ty, res.V = "fatal", n
+			return true
+		}
+	case *goja.StackOverflowError:
+		res.Ty, res.V = "fatal", vm.Get("__fv").ToInteger()
+		return true
+	}
+	return false
+}
+
 func runOne(s src) (res result) {
 	res.Id = s.Id
 	res.Log = []int64{}
+	vm := goja.New()
 	defer func() {
 		if r := recover(); r != nil {
+			if fp, ok := r.(foreignPanic); ok {
+				res.Ty, res.V = "fatal", fp.n
+				return
+			}
 			res.Panic = fmt.Sprint(r)
 		}
 	}()
-	vm := goja.New()
+	vm.SetMaxCallStackSize(400)
 	vm.Set("log", func(x int64) { res.Log = append(res.Log, x) })
+	vm.Set("__intr", func(n int64) { vm.Interrupt(n) })
+	vm.Set("__gopanic", func(n int64) { panic(foreignPanic{n}) })
 	timer := time.AfterFunc(5*time.Second, func() { vm.Interrupt("timeout") })
 	defer timer.Stop()
 	_, err := vm.RunString(s.Src)
 	if err != nil {
-		res.Err = err.Error()
+		if !fatal(vm, &res, err) {
+			res.Err = err.Error()
+		}
 		return
 	}
 	if s.Gen == 0 {
@@ -52,7 +78,7 @@ func runOne(s src) (res result) {
 			if ex, ok := err.(*goja.Exception); ok {
 				res.Ty = "throw"
 				res.V = ex.Value().ToInteger()
-			} else {
+			} else if !fatal(vm, &res, err) {
 				res.Err = err.Error()
 			}
 		} else if goja.IsUndefined(v) {
